@@ -84,9 +84,11 @@ def L0b():
         yield ("rec", s)
 
 
-def L1(depth, variants=("fn",)):
+def L1(depth, variants=("fn",), skip=()):
     seen = set()
     for s in cfgen.shapes(depth):
+        if skip and cfgen.has_kind(s, skip):
+            continue
         for d in cfgen.deviations(s):
             if d not in seen:
                 seen.add(d)
@@ -126,10 +128,10 @@ def L3():
 
 def L3q():
     """pairs of depth-1 compounds (no bare leaves, no fault/call) at function level and inside a while body"""
-    items = [s for s in cfgen.shapes(1) if s[0] not in cfgen.LEAF_KINDS and not cfgen.has_kind(s, ("fault", "call"))]
+    items = [s for s in cfgen.shapes(1) if s[0] not in cfgen.LEAF_KINDS and not cfgen.has_kind(s, ("fault", "call", "store"))]
     for a, b in itertools.product(items, items):
         yield ("fn", ("seq", a, b))
-    litems = [s for s in cfgen.shapes(1, True) if s[0] not in cfgen.LEAF_KINDS and not cfgen.has_kind(s, ("fault", "call", "return"))]
+    litems = [s for s in cfgen.shapes(1, True) if s[0] not in cfgen.LEAF_KINDS and not cfgen.has_kind(s, ("fault", "call", "return", "store"))]
     for a, b in itertools.product(litems, litems):
         yield ("fn", ("while", 2, ("seq", a, b)))
 
@@ -175,7 +177,8 @@ class C01(Check):
     def layers(self, tier):
         if tier == "quick":
             return [("L0-depth<=2-default", L0(2)), ("L0b-depth<=2-module+recursion", L0b()),
-                    ("L2-spines<=5", L2(5)), ("L1-depth<=2-single-deviation", L1(2)), ("L3q-pairs-of-compounds", L3q())]
+                    ("L2-spines<=5", L2(5)), ("L3q-pairs-of-compounds", L3q()),
+                    ("L1-depth<=2-single-deviation(no call/store leaves)", L1(2, skip=("call", "store")))]
         return [("L0-depth<=3-default", L0(3)), ("L0b-depth<=2-module+recursion", L0b()),
                 ("L1-depth<=2-single-deviation", L1(2, ("fn", "module", "rec"))), ("L3-pairs", L3()),
                 ("L2-spines<=5", L2(5)), ("L6-long-sequences", L6_long()), ("L5a-depth<=2-double-deviation", L5_double(2)),
@@ -203,7 +206,7 @@ class C01(Check):
 
     def finish(self, stats, tier):
         errs = []
-        for t in ["break", "continue", "return", "fault-div", "fault-assert" if tier == "thorough" else "fault-div", "elif",
+        for t in ["store", "break", "continue", "return", "fault-div", "fault-assert" if tier == "thorough" else "fault-div", "elif",
                   "while", "from", "collide@nested", "collide@top", "anon@nested", "step", "step-expr", "step-call", "bounds-expr", "through", "module", "rec"]:
             if not stats["tags"].get(t):
                 errs.append(f"vacuity: construct {t} never explored")
